@@ -186,12 +186,15 @@ inline std::u32string shaped_label(ByteSource& b) {
     case 4: {  // precomposed + marks (NFC reordering / recomposition)
       s.push_back(pick(b, A.precomposed));
       unsigned n = 1 + b.below(3);
+      if (b.chance(20)) { static const unsigned runs[] = {16, 17, 18, 33}; n = b.pick(runs); }
       for (unsigned i = 0; i < n; i++) { unsigned k = b.below(3); s.push_back(k == 0 ? pick(b, A.marks_220) : k == 1 ? pick(b, A.marks_230) : pick(b, A.marks_other)); }
       break;
     }
     case 5: {  // base + marks in random order
       s.push_back(b.coin() ? (char32_t)(U'a' + b.below(26)) : pick(b, A.greek_cyr));
       unsigned n = 1 + b.below(4);
+      // long runs of marks, around the sizes where sorting code switches algorithm (16 / 32)
+      if (b.chance(28)) { static const unsigned runs[] = {15, 16, 17, 18, 24, 31, 32, 33, 40}; n = b.pick(runs); }
       for (unsigned i = 0; i < n; i++) { unsigned k = b.below(3); s.push_back(k == 0 ? pick(b, A.marks_220) : k == 1 ? pick(b, A.marks_230) : pick(b, A.marks_other)); }
       break;
     }
